@@ -323,8 +323,9 @@ class CGLS(object):
             # convergence
             normx = LA.norm(x)
             xmax = max(xmax, normx)
-            # (the original test `normx*tol >= 1` stopped after one iteration whenever the solution has norm >= 1/tol)
-            flag = (norms <= norms0*self.tol)
+            # (the original test `normx*tol >= 1` stopped after one iteration whenever the solution has norm >= 1/tol;
+            #  a normal residual at round-off level cannot be reduced further - iterating on it ends in 0/0)
+            flag = (norms <= norms0*self.tol) or (norms <= 1e3*eps*norms_ref)
             # resNE = norms / norms0
 
         shrink = normx/xmax
@@ -431,7 +432,7 @@ class PCGLS:
             # convergence
             normx = LA.norm(x)
             xmax = max(xmax, normx)
-            flag = (norms <= norms0*self._tol)
+            flag = (norms <= norms0*self._tol) or (norms <= 1e3*eps*norms_ref)
             # resNE = norms / norms0
 
         shrink = normx/xmax
